@@ -24,35 +24,62 @@ def build(names, rnd):
     return bio.getvalue(), contents
 
 
+_ORDER = [0]
+
+
 def observe(apkmod, names, rnd):
     raw, contents = build(names, rnd)
     a = apkmod.APK(raw, raw=True, skip_analysis=True)
-    listed = list(a.get_files())
-    content_ok = True
-    for n in names:
+    r = {}
+
+    def q_listed():
+        r["listed"] = list(a.get_files())
+
+    def q_content():
+        ok = True
+        for n in names:
+            try:
+                ok &= bytes(a.get_file(n)) == contents[n]
+            except Exception:
+                ok = False
+        r["content_ok"] = ok
+
+    def q_missing():
+        ok = True
+        for n in ("no/such/file", "classes99.dex", ""):
+            if n in names:
+                continue
+            try:
+                a.get_file(n)
+                ok = False
+            except apkmod.FileNotPresent:
+                pass
+            except Exception:
+                ok = False
+        r["missing_ok"] = ok
+
+    def q_dexnames():
+        r["dexnames"] = list(a.get_dex_names())
+
+    def q_alldex():
         try:
-            content_ok &= bytes(a.get_file(n)) == contents[n]
+            r["alldex"] = sorted(bytes(x) for x in a.get_all_dex())
         except Exception:
-            content_ok = False
-    missing_ok = True
-    for n in ("no/such/file", "classes99.dex", ""):
-        if n in names:
-            continue
-        try:
-            a.get_file(n)
-            missing_ok = False
-        except apkmod.FileNotPresent:
-            pass
-        except Exception:
-            missing_ok = False
-    dexnames = list(a.get_dex_names())
-    try:
-        alldex = list(a.get_all_dex())
-        alldex_ok = sorted(bytes(x) for x in alldex) == sorted(contents[n] for n in dexnames if n in contents)
-    except Exception:
-        alldex_ok = False
+            r["alldex"] = None
+
+    def q_multidex():
+        r["multidex"] = bool(a.is_multidex())
+    # every accessor is the first one asked on some of the archives
+    qs = [q_listed, q_content, q_missing, q_dexnames, q_alldex, q_multidex]
+    k = _ORDER[0] % len(qs)
+    _ORDER[0] += 1
+    for q in qs[k:] + qs[:k]:
+        q()
+    listed, content_ok, missing_ok, dexnames = r["listed"], r["content_ok"], r["missing_ok"], r["dexnames"]
+    alldex_ok = r["alldex"] is not None and r["alldex"] == sorted(contents[n] for n in dexnames if n in contents)
+    multidex = r["multidex"]
     return dict(names=[codes(n) for n in names], listed=[codes(n) for n in listed], content_ok=bool(content_ok), missing_ok=bool(missing_ok),
-                dexnames=[codes(n) for n in dexnames], alldex_ok=bool(alldex_ok), multidex=bool(a.is_multidex()))
+                dexnames=[codes(n) for n in dexnames], alldex_ok=bool(alldex_ok), multidex=multidex)
 
 
 def feats(names):
